@@ -754,6 +754,21 @@ def thorough_selftest(rep: Report, minimum: int = 9) -> None:
         raise AnalysisError("mutation self-test failed: " + "; ".join(f"{r['name']}: {r.get('why')}" for r in bad[:5]))
 
 
+def check_stepper_rounding(rep: Report, ix) -> None:
+    """"served by a call within dt/2": the controller asks the stepper to advance to the next scheduled time; the interpreted
+    fixed stepper must land on the step nearest to it (max(1, round((t_end - t_start)/dt)) steps, returning the time actually
+    reached).  Decided by the control-skeleton witness search shared with C07 (the compiled steppers' step formula is C07's)."""
+    from .c07 import FIXED_STEPPERS, skeleton_witness
+
+    rel, qn = FIXED_STEPPERS[0][:2]
+    fi = ix.func(rel, qn)
+    rep.saw("functions", fi.ref)
+    w = skeleton_witness(fi)
+    rep.oblige("interpreted fixed stepper lands on the step nearest to the requested time", w is None, w)
+    if w is not None:
+        rep.violation("C08.stepper-rounding", f"{fi.ref}::nearest-step", f"the stepper does not stop at the step nearest to the requested (scheduled) time: {w}", line=fi.node.lineno)
+
+
 def check(tier: str) -> Report:
     rep = Report("C08", tier, "other", "static: control-flow graph queries (dominance, post-dominance, path counting, reachability) + reaching definitions")
     rep.explanation = (
@@ -771,6 +786,7 @@ def check(tier: str) -> Report:
     check_collection(rep, ix)
     check_controller(rep, ix)
     check_storage_tracker(rep, ix)
+    check_stepper_rounding(rep, ix)
     rep.assumptions += [
         "exceptions other than those raised by calls inside a try body / explicit raise are not modelled",
         "tracker.handle raises only StopIteration (or subclasses) to request a stop; other exceptions abort the run",
